@@ -3,7 +3,7 @@ ID = "C02"
 PROP = {
     "level": "exploration",
     "rule": ("rapid-generated concurrency quotas (max 1-4, request_expiration 1-5 s, gc_interval 1-3 s, optionally under a concurrent parent with its own "
-             "limits) loaded from YAML, flow Limiter->429 / Filter(x-early)->GenerateResponse(200); histories of <=40 events over a growing pool of "
+             "limits - in one parent case of three the child is a fixed-window limit that never refuses -, optionally with a second quota on the same filter, fixed-window or concurrent, consulted by a second Limiter before or after the first) loaded from YAML, flow Limiter->429 / Filter(x-early)->GenerateResponse(200); histories of <=40 events over a growing pool of "
              "transaction ids {request, request answered early by the gateway, response (also duplicate / unknown id), proxy error via Stream.OnError "
              "(also duplicate / unknown), advance by offsets around expiry (+10 ms grace) and collector instants, burst of 2-8 concurrent requests}; the "
              "collector goroutines are driven and awaited through the virtual clock; every history ends with 'end everything, one collector pass, a fresh "
